@@ -15,7 +15,7 @@ REPO = os.environ.get("ZN_REPO", "/repo")
 COQ = os.path.join(VERIF, "coq")
 BUILD = os.path.join(VERIF, "build")
 HARNESS_SRC = os.path.join(VERIF, "harness")
-ZNH = os.path.join(BUILD, "znh")
+REPO_TAG = "" if REPO == "/repo" else "_" + hashlib.sha1(REPO.encode()).hexdigest()[:8]
 
 GOENV = dict(os.environ)
 GOENV.update({"GOFLAGS": "-mod=mod", "GOPROXY": "off", "GOSUMDB": "off", "GOTOOLCHAIN": "local",
@@ -51,19 +51,36 @@ def sh(cmd, cwd=None, timeout=600, env=None, input=None):
 
 # ---------------------------------------------------------------- harness (Go)
 
-def build_harness():
-    """go build -tags verif of /verif/harness against /repo's working tree."""
-    with Lock("harness"):
+def znh_path(name):
+    return os.path.join(BUILD, "znh_%s%s" % (name, REPO_TAG))
+
+
+def build_harness(name):
+    """go build -tags verif of /verif/harness/cmd/<name> against the working tree of REPO
+    (default /repo; ZN_REPO=<dir> selects a scratch worktree through a generated -modfile)."""
+    with Lock("harness_" + name + REPO_TAG):
         os.makedirs(BUILD, exist_ok=True)
-        try:
-            shutil.copyfile(os.path.join(REPO, "go.sum"), os.path.join(HARNESS_SRC, "go.sum"))
-        except OSError:
-            pass
-        rc, out = sh(["go", "build", "-tags", "verif", "-o", ZNH, "."], cwd=HARNESS_SRC, env=GOENV, timeout=600)
+        args = ["go", "build", "-tags", "verif"]
+        if REPO == "/repo":
+            try:
+                shutil.copyfile(os.path.join(REPO, "go.sum"), os.path.join(HARNESS_SRC, "go.sum"))
+            except OSError:
+                pass
+        else:
+            modfile = os.path.join(BUILD, "go%s.mod" % REPO_TAG)
+            txt = open(os.path.join(HARNESS_SRC, "go.mod")).read().replace("=> /repo", "=> " + REPO)
+            with open(modfile, "w") as f:
+                f.write(txt)
+            try:
+                shutil.copyfile(os.path.join(REPO, "go.sum"), os.path.join(BUILD, "go%s.sum" % REPO_TAG))
+            except OSError:
+                pass
+            args += ["-modfile", modfile]
+        rc, out = sh(args + ["-o", znh_path(name), "./cmd/" + name], cwd=HARNESS_SRC, env=GOENV, timeout=600)
         return rc == 0, out
 
 
-def harness(cmd, cases, timeout_ms=5000, batch_timeout=600):
+def harness(name, cmd, cases, timeout_ms=5000, batch_timeout=600):
     """Run `znh cmd` over cases (dicts). Survives crashes/hangs of the worker: the case at
     which the worker died is reported as {"crash": ...} / {"hang": true} and the rest resumes."""
     results = []
@@ -73,7 +90,7 @@ def harness(cmd, cases, timeout_ms=5000, batch_timeout=600):
         payload = "".join(json.dumps(dict(c, timeout_ms=c.get("timeout_ms", timeout_ms)), ensure_ascii=True) + "\n"
                           for c in cases[i:])
         try:
-            p = subprocess.run([ZNH, cmd], input=payload.encode(), stdout=subprocess.PIPE,
+            p = subprocess.run([znh_path(name), cmd], input=payload.encode(), stdout=subprocess.PIPE,
                                stderr=subprocess.PIPE, timeout=batch_timeout)
             rc, out, err = p.returncode, p.stdout, p.stderr
         except subprocess.TimeoutExpired as e:
@@ -105,10 +122,28 @@ def harness(cmd, cases, timeout_ms=5000, batch_timeout=600):
 
 # ---------------------------------------------------------------- Coq
 
+COQ_DIRS = ["lib", "gen", "spec", "model", "proofs", "props"]
+
+
 def coq_makefile():
-    mk = os.path.join(COQ, "Makefile")
+    """_CoqProject lists every .v under lib/ gen/ spec/ model/ proofs/ props/; regenerated when the set changes."""
+    files = []
+    for d in COQ_DIRS:
+        dd = os.path.join(COQ, d)
+        if os.path.isdir(dd):
+            for root, _, fns in os.walk(dd):
+                for fn in sorted(fns):
+                    if fn.endswith(".v"):
+                        files.append(os.path.relpath(os.path.join(root, fn), COQ))
+    files.sort()
+    txt = ("-R . Zn\n-arg -w -arg -notation-overridden,-deprecated-hint-without-locality,"
+           "-deprecated-instance-without-locality,-ambiguous-paths\n" + "\n".join(files) + "\n")
     cp = os.path.join(COQ, "_CoqProject")
-    if (not os.path.exists(mk)) or os.path.getmtime(mk) < os.path.getmtime(cp):
+    old = open(cp).read() if os.path.exists(cp) else ""
+    mk = os.path.join(COQ, "Makefile")
+    if old != txt or not os.path.exists(mk):
+        with open(cp, "w") as f:
+            f.write(txt)
         sh(["coq_makefile", "-f", "_CoqProject", "-o", "Makefile"], cwd=COQ)
 
 
@@ -272,6 +307,7 @@ def coq_run_cases(name, imports, run_fn, case_terms, ty="list Z", shard=400, tim
 # ---------------------------------------------------------------- known findings
 
 def load_findings():
+    """known_findings.json (committed, never written at run time)."""
     p = os.path.join(VERIF, "known_findings.json")
     if not os.path.exists(p):
         return []
